@@ -62,6 +62,16 @@ Theorem c08_emitted_pub_sub_same : forall q l delim sc op pfx,
 Proof. exact emitted_pub_sub_same. Qed.
 Print Assumptions c08_emitted_pub_sub_same.
 
+(** no side condition on prefix, delimiter, names or values, pinned or repaired generators:
+    whenever the publisher's and the subscriber's topic statements of a language both evaluate,
+    they evaluate to the same string (so every disagreement the model can exhibit is between
+    languages, never inside one) *)
+Theorem c08_pub_sub_agree_when_defined : forall q l delim sc op pfx vals a b,
+  topic q l Pub delim sc op pfx vals = Some a ->
+  topic q l Sub delim sc op pfx vals = Some b -> a = b.
+Proof. exact pub_sub_agree_when_defined. Qed.
+Print Assumptions c08_pub_sub_agree_when_defined.
+
 (** the specification substitutes the variables and nothing else: putting every variable's own
     text {name} back yields the prefix *)
 Theorem c08_subst_identity : forall pfx,
@@ -88,6 +98,20 @@ Theorem c08_python_case_differs_refuted :
     topic pinned Java Sub delim sc op pfx vals = Some t2 /\ t1 <> t2.
 Proof. exact pinned_python_case_differs. Qed.
 Print Assumptions c08_python_case_differs_refuted.
+
+(** repaired tree, known finding C08-dart-delim-after-variable: with -delim _ and a prefix ending
+    in a variable the Dart statements do not compile ('foo.$user_' names an undefined user_)
+    while Go (and Java, Python) use the specified topic *)
+Theorem c08_dart_delim_after_variable_refuted :
+  exists delim sc op pfx vals,
+    in_domain Go delim sc op pfx = true /\ in_domain Java delim sc op pfx = true /\
+    in_domain Py delim sc op pfx = true /\
+    vars_safe Dart Pub op (vars_of (segments pfx)) = true /\
+    topic fixed Go Pub delim sc op pfx vals = Some (spec_topic delim sc op pfx vals) /\
+    topic fixed Dart Pub delim sc op pfx vals = None /\
+    topic fixed Dart Sub delim sc op pfx vals = None.
+Proof. exact dart_delim_after_variable. Qed.
+Print Assumptions c08_dart_delim_after_variable_refuted.
 
 (** the side conditions are not an artefact: what each template does with its metacharacters
     ('%' under fmt.Sprintf / String.format, '$' and identifier-continuing delimiters in Dart,
@@ -128,4 +152,12 @@ Example c08_nonvacuous :
      = map (fun l => topic fixed l Sub delim sc op pfx vals) [Go; Java; Dart; Py]
   /\ topic fixed Dart Sub delim sc op pfx vals
      = Some (lit "foo.100%s{}$op." ++ [195; 169] ++ lit ".it's ""q"" \/My_events/EventCreated").
+Proof. vm_compute. repeat split; reflexivity. Qed.
+
+(** README.md: "published on Events.EventCreated", "foo.bar.Events.EventCreated" *)
+Example c08_readme_examples :
+  spec_topic (lit ".") (lit "Events") (lit "EventCreated") [] [] = lit "Events.EventCreated"
+  /\ spec_topic (lit ".") (lit "Events") (lit "EventCreated") (lit "foo.bar") [] = lit "foo.bar.Events.EventCreated"
+  /\ spec_topic (lit ".") (lit "Events") (lit "EventCreated") (lit "foo.{user}") [lit "bill"]
+     = lit "foo.bill.Events.EventCreated".
 Proof. vm_compute. repeat split; reflexivity. Qed.
